@@ -230,7 +230,8 @@ class _EntityBase(EntityProtocol):
     def update(self):
         """Update the entity from current data in mdib."""
         orig = self._mdib.descriptions.handle.get_one(self.handle)
-        self.descriptor.update_from_other_container(orig)
+        # update from a copy: the entity must not share nested values with the mdib
+        self.descriptor.update_from_other_container(orig.mk_copy())
 
 
 class Entity(_EntityBase):
@@ -249,7 +250,7 @@ class Entity(_EntityBase):
         """Update the entity from current data in mdib."""
         super().update()
         orig = self._mdib.states.get_one(self.handle)
-        self.state.update_from_other_container(orig)
+        self.state.update_from_other_container(orig.mk_copy())
 
 
 class MultiStateEntity(_EntityBase):
@@ -279,7 +280,7 @@ class MultiStateEntity(_EntityBase):
         for state in list(self.states.values()):
             orig = states_dict.get(state.Handle)
             if orig is not None:
-                state.update_from_other_container(orig)
+                state.update_from_other_container(orig.mk_copy())
             else:
                 self.states.pop(state.Handle)
         # add new states
